@@ -194,7 +194,11 @@ func (f *FibStrategyTree) InsertNextHopEnc(name enc.Name, nexthop uint64, cost u
 func (f *FibStrategyTree) ClearNextHopsEnc(name enc.Name) {
 	f.fibStrategyRWMutex.Lock()
 	defer f.fibStrategyRWMutex.Unlock()
+	f.clearNextHops(name)
+}
 
+// clearNextHops clears all nexthops for the specified prefix. The caller holds the write lock.
+func (f *FibStrategyTree) clearNextHops(name enc.Name) {
 	// A nil name is the zero-component name, i.e. the root prefix, exactly as for
 	// every other operation of this table and for the hash-table implementation.
 	// (RibEntry.updateNexthopsEnc no longer passes the nil name of its filler nodes.)
@@ -204,6 +208,25 @@ func (f *FibStrategyTree) ClearNextHopsEnc(name enc.Name) {
 		delete(f.fibPrefixes, name.Hash())
 		node.pruneIfEmpty()
 	}
+}
+
+// SetNextHopsEnc replaces all nexthops of the specified prefix in a single step.
+func (f *FibStrategyTree) SetNextHopsEnc(name enc.Name, nexthops []FibNextHopEntry) {
+	f.fibStrategyRWMutex.Lock()
+	defer f.fibStrategyRWMutex.Unlock()
+
+	if len(nexthops) == 0 {
+		f.clearNextHops(name)
+		return
+	}
+
+	name = name.Clone()
+	entry := f.fillTreeToPrefixEnc(name)
+	if entry.name == nil {
+		entry.name = name
+	}
+	entry.nexthops = newNextHops(nexthops)
+	f.fibPrefixes[name.Hash()] = entry
 }
 
 // RemoveNextHop removes the specified nexthop entry from the specified prefix.
